@@ -12,6 +12,7 @@ package main
 import (
 	"bytes"
 	"fmt"
+	"runtime/debug"
 	"strconv"
 	"strings"
 
@@ -33,6 +34,8 @@ func init() {
 			return c16SlowStream(v)
 		case "shared":
 			return c16SharedBlock(v)
+		case "huge":
+			return c16Huge(v)
 		}
 		return "ERR"
 	}
@@ -173,6 +176,29 @@ func c16SharedBlock(n int) string {
 		}
 		return "ok"
 	})
+}
+
+// c16Huge: the writer on a sequence whose last ORIGIN line needs an index of more than nine
+// digits (known finding K16A: the block is sized for a nine-column index, NewOrigin runs past its
+// buffer).  About 2.3 GB and 7 s for n just above 10^9: run once per check run as the witness.
+func c16Huge(n int) string {
+	if n < 0 || n > 1100000000 {
+		return "ERR"
+	}
+	out := "OK"
+	func() {
+		defer func() {
+			if recover() != nil {
+				out = "PANIC"
+			}
+		}()
+		o := seqio.NewOrigin(make([]byte, n))
+		if o.Len() != n {
+			out = fmt.Sprintf("Len %d", o.Len())
+		}
+	}()
+	debug.FreeOSMemory()
+	return out
 }
 
 func c16More(r *Run) {
